@@ -8,7 +8,14 @@
                     statements stood there;
                   * every call effect records whether it is evaluated inside a `try` body one of
                     whose handlers catches Exception (`effect.guarded` in {'', 'E', 'B'}).
+                  * `try: <one statement whose only operation is d.pop(k) / d[k] / del d[k]>` with a handler
+                    for KeyError is read as the membership test it is: the path through the body carries
+                    the fact `k in d`, the path through that handler `k not in d` (EAFP <-> LBYL).
                   Helper calls it cannot follow are collected in `unfollowed`.
+  Signature       the parameters of a method as its callers bind them (positional / keyword spellings of a
+                  call coincide; keyword-only parameters are honoured); param_uses / assign_roles bind the
+                  parameters of the anchored methods by *role* (what the body does with them), whatever
+                  their order or names.
   HelperGraph     who references which private method of a class (absorption of extracted helpers
                   into the anchored functions for who-may-call rules).
   rebound_after   which free variables of a closure are bound again after the closure was created
@@ -43,6 +50,58 @@ def catches(handler: ast.ExceptHandler) -> str:
     if "Exception" in names:
         return "E"
     return ""
+
+
+_LOOKUP_ERRORS = ("KeyError", "LookupError")
+
+
+def lookup_probe(s: ast.Try) -> tuple[ast.expr, ast.expr, ast.ExceptHandler] | None:
+    """(mapping, key, handler) when `s` is the EAFP spelling of a membership test: the body is ONE plain
+    statement whose only operation is `<mapping>.pop(<key>)` (no default), `<mapping>[<key>]` or
+    `del <mapping>[<key>]` -- everything else in it is a name, an attribute or a constant, so a KeyError
+    can only come from that lookup and means exactly "key not in mapping" -- and the first handler that
+    catches KeyError names it (KeyError / LookupError, possibly among others; a bare / Exception handler
+    is not read as a membership test)."""
+    if len(s.body) != 1:
+        return None
+    st = s.body[0]
+    if isinstance(st, ast.Assign) and all(isinstance(t, ast.Name) for t in st.targets):
+        roots: list[ast.AST] = [st.value]
+    elif isinstance(st, ast.AnnAssign) and isinstance(st.target, ast.Name) and st.value is not None:
+        roots = [st.value]
+    elif isinstance(st, ast.Expr):
+        roots = [st.value]
+    elif isinstance(st, ast.Delete) and len(st.targets) == 1 and isinstance(st.targets[0], ast.Subscript):
+        roots = [st.targets[0]]
+    else:
+        return None
+    ops: list[ast.AST] = []
+    for r in roots:
+        for n in ast.walk(r):
+            if isinstance(n, (ast.Call, ast.Subscript)):
+                ops.append(n)
+            elif not isinstance(n, (ast.Name, ast.Attribute, ast.Constant, ast.expr_context)):
+                return None
+    if len(ops) != 1:
+        return None
+    op = ops[0]
+    if isinstance(op, ast.Call):
+        if not (isinstance(op.func, ast.Attribute) and op.func.attr == "pop" and len(op.args) == 1 and not op.keywords
+                and not isinstance(op.args[0], ast.Starred)):
+            return None
+        coll, key = op.func.value, op.args[0]
+    else:
+        assert isinstance(op, ast.Subscript)
+        if isinstance(op.ctx, ast.Store) or isinstance(op.slice, (ast.Slice, ast.Tuple)):
+            return None
+        coll, key = op.value, op.slice
+    for h in s.handlers:
+        names = [] if h.type is None else [u(e) for e in h.type.elts] if isinstance(h.type, ast.Tuple) else [u(h.type)]
+        if h.type is None or any(x in ("Exception", "BaseException") for x in names):
+            return None             # the first handler a KeyError reaches is a catch-all
+        if any(x in _LOOKUP_ERRORS for x in names):
+            return coll, key, h
+    return None
 
 
 class FollowExec(SymExec):
@@ -133,11 +192,22 @@ class FollowExec(SymExec):
         entry = p.fork()
         level = "B" if any(catches(h) == "B" for h in s.handlers) else \
             "E" if any(catches(h) == "E" for h in s.handlers) else ""
+        probe = lookup_probe(s)
+        fact: tuple[Any, ast.AST] | None = None
+        if probe is not None:       # `k in d`, as the state stands when the try is entered
+            coll = _Subst(dict(entry.env)).visit(copy.deepcopy(probe[0]))
+            k = _Subst(dict(entry.env)).visit(copy.deepcopy(probe[1]))
+            atom = ast.copy_location(ast.Compare(left=k, ops=[ast.In()], comparators=[coll]), s)
+            ast.fix_missing_locations(atom)
+            fact = (("in", u(k), u(coll)), atom)
         self.guard.append(level)
         try:
             normal = self.block(p, s.body)
         finally:
             self.guard.pop()
+        if fact is not None:
+            for q, _st in normal:   # the lookup succeeded
+                q.conds.append((fact[0], True, fact[1], ln, True))
         res: list[tuple[Path, str]] = []
         for q, st in normal:
             res.extend(self.block(q, s.orelse) if st == "next" else [(q, st)])
@@ -152,6 +222,8 @@ class FollowExec(SymExec):
                 q.env[b2] = ast.Name(id=f"<{b2}@try{ln}>", ctx=ast.Load())
             key = ("except", u(h.type) if h.type is not None else "BaseException", ln)
             q.conds.append((key, True, h.type if h.type is not None else ast.Constant(None), h.lineno, True))
+            if fact is not None and probe is not None and h is probe[2]:    # the lookup raised KeyError
+                q.conds.append((fact[0], False, fact[1], h.lineno, False))
             q.epoch += 1
             if h.name:
                 q.env[h.name] = ast.Name(id=f"<exc {u(h.type)}@{h.lineno}>", ctx=ast.Load())
@@ -419,6 +491,113 @@ def callback_target(cb: ast.AST, nested: dict[str, ast.FunctionDef],
             return self_attr(stmts[0].value.func)
         return None
     return self_attr(cb)
+
+
+# --------------------------------------------------------------------------------------------- parameters by role
+class Signature:
+    """The parameters of a method as a call `self.m(...)` binds them."""
+
+    def __init__(self, fn: FuncInfo) -> None:
+        a = fn.node.args
+        static = any(isinstance(d, ast.Name) and d.id == "staticmethod" for d in fn.node.decorator_list)
+        skip = 0 if static or fn.cls is None else 1                     # self / cls
+        self.posonly = [x.arg for x in a.posonlyargs][skip:]
+        self.positional = [x.arg for x in a.posonlyargs + a.args][skip:]  # may be passed by position, in this order
+        self.kwonly = [x.arg for x in a.kwonlyargs]
+        self.names = self.positional + self.kwonly
+        self.variadic = a.vararg is not None or a.kwarg is not None
+
+    def bind_nodes(self, call: ast.AST) -> dict[str, ast.AST] | None:
+        """Arguments of a call by parameter name; None when the call is not a plain binding of these
+        parameters (star arguments, too many positionals, unknown / repeated / positional-only keywords)."""
+        if not isinstance(call, ast.Call) or self.variadic or any(isinstance(a, ast.Starred) for a in call.args) \
+                or any(k.arg is None for k in call.keywords) or len(call.args) > len(self.positional):
+            return None
+        out: dict[str, ast.AST] = dict(zip(self.positional, call.args))
+        for k in call.keywords:
+            assert k.arg is not None
+            if k.arg in out or k.arg not in self.names or k.arg in self.posonly:
+                return None
+            out[k.arg] = k.value
+        return out
+
+    def bind(self, call: ast.AST) -> dict[str, str] | None:
+        a = self.bind_nodes(call)
+        return None if a is None else {k: u(v) for k, v in a.items()}
+
+    def render(self, values: dict[str, str]) -> str:
+        """Argument list text that binds the given parameters to the given expression texts."""
+        parts: list[str] = []
+        by_pos = True
+        for n in self.positional:
+            if n in values and by_pos:
+                parts.append(values[n])
+            else:
+                by_pos = False
+                if n in values:
+                    parts.append(f"{n}={values[n]}")
+        parts += [f"{n}={values[n]}" for n in self.kwonly if n in values]
+        return ", ".join(parts)
+
+
+def param_uses(paths: Iterable[Path], names: Iterable[str], mappings: Iterable[str]) -> dict[str, set[str]]:
+    """What the walked paths of a method do with each of its parameters (locals substituted away, helpers
+    read in, so a parameter appears under its own name wherever its value is used):
+      'key'      key of a lookup / membership test / store / delete on one of the `mappings`
+      'task'     `<p>.result()` / `<p>.exception()` is asked for
+      'request'  handed to `...distribute_power(...)`"""
+    names = list(names)
+    maps = set(mappings) | {f"{m}.keys()" for m in mappings}
+    uses: dict[str, set[str]] = {n: set() for n in names}
+
+    def name_of(e: ast.AST | None) -> str | None:
+        return e.id if isinstance(e, ast.Name) and e.id in uses else None
+
+    roots: list[ast.AST] = []
+    for p in paths:
+        roots += [e.node for e in p.effects] + [atom for _k, _o, atom, _ln, _w in p.conds]
+        if p.ret is not None:
+            roots.append(p.ret)
+    for r in roots:
+        for n in ast.walk(r):
+            hit: tuple[str | None, str] | None = None
+            if isinstance(n, ast.Subscript) and u(n.value) in maps:
+                hit = (name_of(n.slice), "key")
+            elif isinstance(n, ast.Compare) and len(n.ops) == 1 and isinstance(n.ops[0], (ast.In, ast.NotIn)) \
+                    and u(n.comparators[0]) in maps:
+                hit = (name_of(n.left), "key")
+            elif isinstance(n, ast.Call) and isinstance(n.func, ast.Attribute):
+                if n.func.attr in ("get", "pop", "setdefault", "__contains__", "__getitem__", "__delitem__") \
+                        and u(n.func.value) in maps and n.args:
+                    hit = (name_of(n.args[0]), "key")
+                elif n.func.attr in ("result", "exception") and not n.args and not n.keywords:
+                    hit = (name_of(n.func.value), "task")
+                elif n.func.attr == "distribute_power":
+                    for a in list(n.args) + [k.value for k in n.keywords]:
+                        if name_of(a) is not None:
+                            uses[name_of(a)].add("request")  # type: ignore[index]
+            if hit is not None and hit[0] is not None:
+                uses[hit[0]].add(hit[1])
+    return uses
+
+
+def assign_roles(names: list[str], uses: dict[str, set[str]], roles: list[str]) -> dict[str, str] | None:
+    """role -> parameter.  A role goes to the one parameter that is used that way and in no other role's
+    way; what the uses leave open is settled by the historical order of the roles over the remaining
+    parameters (the order of the signature).  None when there are fewer parameters than roles."""
+    if len(names) < len(roles):
+        return None
+    out: dict[str, str] = {}
+    for r in roles:
+        cands = [n for n in names if r in uses.get(n, ())]
+        if len(cands) == 1 and not (uses[cands[0]] & set(roles)) - {r}:
+            out[r] = cands[0]
+    rest = [n for n in names if n not in out.values()]
+    for r in roles:
+        if r not in out:
+            out[r] = rest.pop(0)
+    return out
+
 
 
 # --------------------------------------------------------------------------------------------- closures
